@@ -60,10 +60,13 @@ ALPHABET = ([("columns", n) for n in range(0, 4)] + [("values", n) for n in rang
             [("valuesit", n) for n in range(0, 4)] + [("valuespanicit", n) for n in range(1, 3)] +
             [("valuespanic", n) for n in range(0, 3)] + [("selectfrom", n) for n in range(1, 4)] +
             [("selectfromstar", n) for n in range(1, 3)] +
-            [("valuesfrompanic", 2), ("ordefault", 0), ("ordefaultmany", 2)] +
+            [("valuesfrompanic", 2), ("ordefault", 0), ("ordefaultmany", 2), ("ordefaultmany", 0),
+             ("ordefaultmany", 1), ("ordefaultmany", 3)] +
             [("vfpr", (2, 1)), ("vfpr", (2, 3)), ("vfpr", (1, 2)), ("vfpr", (2, 0)), ("vfpr", (1, 1))])
 HIST = {}
 SRC = [None]
+DEFROWS = [None]
+DEFSTAT = [0]
 
 
 def gen_cases(ctx):
@@ -93,6 +96,7 @@ def simulate(h):
     """spec-level reading of a history: expected log of the fallible calls, whether it panics,
     whether it re-declares the column list after a source was accepted (known class)"""
     ncols, has_source, log, recolumn = 0, False, [], False
+    DEFROWS[0] = None      # rows of defaults asked for by the last or_default_values*() call
     SRC[0] = None          # the source the statement must end with: None | ("values", number of rows) | ("select",)
 
     def accept_row(n):
@@ -135,6 +139,12 @@ def simulate(h):
                 SRC[0] = ("select",)
             else:
                 log.append("err(%d,%d)" % (ncols, n))
+        elif k == "ordefault":
+            DEFROWS[0] = 1
+        elif k == "ordefaultmany":
+            DEFROWS[0] = n
+    if has_source or ncols != 0:
+        DEFROWS[0] = None      # the defaults stand in only for a statement without columns and without a source
     return log, False, recolumn
 
 
@@ -230,6 +240,28 @@ def batch_oracle(ctx, lines, impl):
         except sqlparse.ParseError as e:
             verdicts[i] = "cannot read the INSERT shape: %s" % e
             continue
+        # a statement without columns and source carries as many rows of defaults as the last or_default_values*()
+        # call asked for (MySQL `()`, Postgres `(DEFAULT)`; SQLite has the one-row form DEFAULT VALUES only)
+        if DEFROWS[0] is not None and b in ("my", "pg"):
+            tl = sqlparse.toks_of(toks[(b, f[0])])
+            got_rows, j = None, 0
+            for j, t in enumerate(tl):
+                if t == ("W", "VALUES"):
+                    rest = tl[j + 1:]
+                    unit = [("C", "("), ("C", ")")] if b == "my" else [("C", "("), ("W", "DEFAULT"), ("C", ")")]
+                    got_rows, k = 0, 0
+                    while rest[k:k + len(unit)] == unit:
+                        got_rows += 1
+                        k += len(unit)
+                        if rest[k:k + 1] == [("C", ",")]:
+                            k += 1
+                    if k != len(rest):
+                        got_rows = "unreadable"
+                    break
+            DEFSTAT[0] += 1
+            if got_rows != DEFROWS[0]:
+                verdicts[i] = "or_default_values asked for %d row(s) of defaults, the statement carries %s" % (DEFROWS[0], got_rows)
+                continue
         if rows is not None:
             rect_checked += 1
             if any(r != ncols for r in rows):
@@ -245,6 +277,7 @@ def batch_oracle(ctx, lines, impl):
                     "a SELECT" if got_src and got_src[0] == "select" else
                     ("%d row(s)" % got_src[1] if got_src else "no source"))
     ctx.cov["oracle_rectangles_checked"] = rect_checked
+    ctx.cov["oracle_default_row_statements_checked"] = DEFSTAT[0]
     return verdicts
 
 
